@@ -581,6 +581,17 @@ def got_value(s):
     return ("err", code)
 
 
+def ptr_oracle(path, f):
+    """segments reported by jbl_ptr_alloc against the RFC 6901 reference tokens (pointers the property covers)"""
+    toks = rfc_parse(path)
+    if toks is None or 0 in path or (len(path) > 1 and path.endswith(b"/")):
+        return []
+    exp = "0:%d:%s" % (len(toks), ",".join(vlib.hexs(t) for t in toks))
+    if f.get("p") != exp:
+        return ["jbl_ptr_alloc segments %s differ from the RFC 6901 reference tokens %s" % (f.get("p"), exp)]
+    return []
+
+
 def oracle(query, out):
     """list of reasons why the implementation's answer `out` to `query` contradicts the property statement"""
     q = query.split()
@@ -635,10 +646,14 @@ def oracle(query, out):
             if q[0] == "json" and f.get("bj", "").startswith("0:"):
                 if f["bj"][2:] != f["binn"]:
                     bad.append("jbl_from_json differs from jbn_from_json + jbl_from_node")
+        elif q[0] == "ptr":
+            path = b"" if q[1] == "-" else bytes.fromhex(q[1])
+            bad += ptr_oracle(path, f)
         elif q[0] == "at":
             doc = parse_dump(q[1])
             path = b"" if q[2] == "-" else bytes.fromhex(q[2])
             toks = rfc_parse(path)
+            bad += ptr_oracle(path, f)
             if f.get("balias") == "1" or f.get("b2alias") == "1":
                 bad.append("the result of jbl_at owns the buffer of the document: jbl_destroy(result), as documented, frees it")
             if not in_scope(doc) or toks is None or 0 in path:
